@@ -75,7 +75,32 @@ def mm(kind):
     return _S["mm-" + kind if kind else "mm"]
 
 
-def run_case(f, target, tkind, ekind, source, how, mmk=None):
+def mm_user(uc):
+    """Node as a user class: a frozen dataclass (keeps a __dict__) or a class with __slots__ and no room for textX's bookkeeping"""
+    from textx import metamodel_from_str
+
+    if "uc-" + uc not in _S:
+        if uc == "frozen":
+            import dataclasses
+
+            @dataclasses.dataclass(frozen=True, eq=False)
+            class Node:
+                parent: object
+                name: str
+                up: object
+                head: object
+                items: list
+        else:
+            class Node:
+                __slots__ = ("parent", "name", "up", "head", "items")
+
+                def __init__(self, parent, name, up, head, items):
+                    self.parent, self.name, self.up, self.head, self.items = parent, name, up, head, items
+        _S["uc-" + uc] = metamodel_from_str(GRAMMAR, classes=[Node])
+    return _S["uc-" + uc]
+
+
+def run_case(f, target, tkind, ekind, source, how, mmk=None, uc=None):
     """target: path of the object (tkind 'object') or of the leaf whose value fails (tkind 'match')"""
     from textx.exceptions import TextXError, TextXSemanticError, TextXSyntaxError
     from textx import textxerror_wrap
@@ -103,6 +128,8 @@ def run_case(f, target, tkind, ekind, source, how, mmk=None):
     own = {"line": 77, "col": 88, "filename": "own.file", "nchar": 5}
     tname = nm[target]
     tval = str(vals.get(target))
+    if uc:
+        m_ = mm_user(uc)  # the offsets above come from the load with plain classes
 
     def make_error():
         if ekind == "textx-no-location":
@@ -137,6 +164,7 @@ def run_case(f, target, tkind, ekind, source, how, mmk=None):
         procs[cls] = objproc_
     m_.register_obj_processors(procs)
     obs = {"text": text, "target": tname if tkind == "object" else "value %s" % tval, "error_kind": ekind, "source": source, "layout": how,
+           "user_class": uc,
            "metamodel": {"group": "use_regexp_group=True, Val: /(\\d+)/", "composite": "Val: '+'? /\\d+/ '%'?", "goff": "use_regexp_group=True, Val: /v(\\d+)/"}.get(mmk, "default")}
     try:
         if source == "file":
@@ -173,15 +201,23 @@ def work(arg):
                 for ekind in KINDS:
                     for source in ("str", "file"):
                         for how in LAYOUTS:
-                            for mmk in ((None, "group", "composite", "goff") if tkind == "match" else (None,)):
-                                cid = [f, p, tkind, ekind, source, how, mmk]
+                            variants = [(m, None) for m in ((None, "group", "composite", "goff") if tkind == "match" else (None,))]
+                            if tkind == "object" and k == "n" and how in ("indented", "mixed"):
+                                variants += [(None, "frozen"), (None, "slots")]
+                            for mmk, uc in variants:
+                                cid = [f, p, tkind, ekind, source, how, mmk] + ([uc] if uc else [])
                                 with watchdog(20):
-                                    ok, obs = run_case(f, p, tkind, ekind, source, how, mmk)
+                                    ok, obs = run_case(f, p, tkind, ekind, source, how, mmk, uc)
                                 u.case(cid, nontrivial=True, sample=obs if how == "mixed" and source == "file" else None)
                                 u.count("%s/%s" % (tkind, ekind))
+                                if uc:
+                                    u.count("user-class:" + uc)
                                 if not ok:
-                                    u.fail(cid, {"forest": f, "target": p, "tkind": tkind, "ekind": ekind, "source": source, "layout": how, "mm": mmk},
-                                           sig="%s %s %s %s" % (tkind, ekind, source, mmk), what=str(obs)[:500])
+                                    key = None
+                                    if uc in ("slots", "frozen") and isinstance(obs.get("observed"), dict) and obs["observed"]["filename"] == obs["expected"]["filename"]:
+                                        key = "immutable_user_class_has_no_position"
+                                    u.fail(cid, {"forest": f, "target": p, "tkind": tkind, "ekind": ekind, "source": source, "layout": how, "mm": mmk, "uc": uc},
+                                           sig="%s %s %s %s %s" % (tkind, ekind, source, mmk, uc), what=str(obs)[:500], key=key)
     return u
 
 
@@ -201,4 +237,4 @@ def run(ctx):
 
 
 def replay(p):
-    return run_case(tup(p["forest"]), tup(p["target"]), p["tkind"], p["ekind"], p["source"], p["layout"], p.get("mm"))
+    return run_case(tup(p["forest"]), tup(p["target"]), p["tkind"], p["ekind"], p["source"], p["layout"], p.get("mm"), p.get("uc"))
